@@ -2,3 +2,4 @@ import Spec.Scan
 import Spec.Assign
 import Spec.Errors
 import Spec.Stores
+import Spec.Print
